@@ -142,6 +142,7 @@ where
     Traits: ?Sized + Trait, 
     M: MemBuilder,
     IterItem: IteratorItem<'a, AnyVecPtr<Traits, M>>,
+    IterItem::Item: Send,
     AnyVec<Traits, M>: Send
 {}
 #[allow(renamed_and_removed_lints, suspicious_auto_trait_impls)]
